@@ -47,7 +47,13 @@ MANIFEST = dict(
          "ascending in place of a numpy.unique result (rows are one-dimensional lists by the quantifier).  (3a) the order of the column "
          "numbers returned by get_colnums is followed by reaching definitions from the request: a container whose element i is computed "
          "from element i of the request, also after an order-keeping removal of repeats (X[sort(first-occurrence index)], dict.fromkeys), "
-         "has the order of the request and is reported unless a caller sorts it.",
+         "has the order of the request and is reported unless a caller sorts it.  (1f) the values handed to the C++ slice reader are read "
+         "off the same symbolic evaluation as (1e): a fresh array with dtype=self.dtype and <slice>.start, .stop, .step in this order.  "
+         "(5b, SFile) the request that reaches Recfile.read is followed by reaching definitions from the parameters of SFile.read through "
+         "any private helper of the class: rows must be the rows parameter, the column request the merge of fields= and columns= (or both "
+         "forwarded).  (6a) split_fields is checked on whatever function the name resolves to in sfile, recfile.Util and numpy_util "
+         "(an import of another module's copy is followed).  (7i) a counted loop whose first round differs from the later ones by a "
+         "test of the loop counter alone is accepted when the reads of all rounds form one arithmetic progression.",
     note="Not decided: element-wise equality with in-memory indexing for all table sizes (numpy indexing, libc reads and the per-column "
          "text scanner are trusted; the evaluation is exhaustive only over small model tables). Assumes positive slice steps (property "
          "quantifier). Trusted: slice.indices, numpy.unique, CPython ast, clang AST, SWIG naming.",
@@ -60,8 +66,8 @@ MANIFEST = dict(
 # specification (every `eval::` instance), by term equality, reaching definitions, effect analysis or dominance over resolved calls.
 # Every other rule instance of this check is a template rule (vcheck.core.Check.ob / set_templates).
 SEMANTIC = ('R02.1b', 'R02.1c', 'R02.1e', 'R02.2a', 'R02.2b', 'R02.2c', 'R02.4', 'R02.6b', 'R02.6c', 'R02.7i',
-            'R02.1f::eval::', 'R02.3a::eval::', 'R02.3a::sem::', 'R02.3b::eval::', 'R02.3c::eval::', 'R02.3d::eval::',
-            'R02.5b::eval::', 'R02.5c::eval::', 'R02.5d::eval::', 'R02.5e::eval::', 'R02.5f::eval::',
+            'R02.1f::eval::', 'R02.1f::sem::', 'R02.3a::eval::', 'R02.3a::sem::', 'R02.3b::eval::', 'R02.3c::eval::', 'R02.3d::eval::',
+            'R02.5b::eval::', 'R02.5b::sem::', 'R02.5c::eval::', 'R02.5d::eval::', 'R02.5e::eval::', 'R02.5f::eval::',
             'R02.6a::eval::', 'R02.6d::eval::', 'R02.6e::eval::',
             'R02.7a::eval::', 'R02.7b::eval::', 'R02.7e::eval::', 'R02.7f::eval::', 'R02.7j::eval::', 'R02.7j::sem::')
 
@@ -364,6 +370,7 @@ def r02_1(chk, repo, F, cfun, S):
     gs = F["_get_slice_nrows"] or F["_read_binary_slice"] or gi
     key = U + "Recfile._get_slice_nrows::row-count-is-ceil-division"
     msg = "number of rows allocated for a normalised slice is ceil((stop-start)/step)"
+    count_followed = False      # R02.1e was decided on the shape of the very buffer that is handed to the C++ reader
     if not _ev_any(chk, S, [("brackets", ["count"]), ("slice-direct", ["count"])], "R02.1e", key, gs.where(), msg):
         # symbolic form: the count as a term over all normalised slices (decides both ways); then the reviewed shapes (pass only)
         try:
@@ -375,6 +382,7 @@ def r02_1(chk, repo, F, cfun, S):
         except Exception as e:        # a defect of the symbolic evaluator must never become a verdict
             sym = (None, "symbolic form: %s: %s" % (type(e).__name__, e))
         if sym[0] is not None:
+            count_followed = True
             chk.ob("R02.1e", key, sym[0], gs.where(), "%s: %s" % (msg, sym[1]))
         else:
             okc, why = _is_ceil_div_py(F["_get_slice_nrows"].node) if F["_get_slice_nrows"] is not None else (False, "helper not found")
@@ -417,7 +425,7 @@ def r02_1(chk, repo, F, cfun, S):
     b = _ev(chk, S, "brackets", ["roles"], "R02.1f", "eval::" + rb.qualname + "::start-stop-step-roles", rb.where(),
             "read_binary_slice receives (buffer, start, stop, step) in that order and the filled buffer is returned")
     if not (a and b):
-        _r02_1f_structural(chk, F)
+        _r02_1f_semantic(chk, repo, F, count_followed)
 
 
 def _sim_slice_direct(repo):
@@ -565,8 +573,9 @@ class _Poison(object):
 
 
 class _Buf(object):
-    def __init__(self, shape):
+    def __init__(self, shape, dtype=None):
         self.shape = shape
+        self.dtype = dtype      # the value of the dtype argument of the allocation (a symbol such as self.dtype), None when not given
 
 
 class _SliceV(object):
@@ -932,6 +941,18 @@ class _PyCount(object):
                     return None
                 if self._always_raises(st.orelse):
                     return self.block(st.body, env)
+                if self.dom is None:
+                    # discovery pass (no slice family bound yet; it only finds out WHICH values are handed to the C++ reader): both
+                    # arms are followed, and a variable the arms leave different is unknown afterwards
+                    e1, e2 = dict(env), dict(env)
+                    r1, r2 = self.block(st.body, e1), self.block(st.orelse, e2)
+                    if r1 is not None or r2 is not None:
+                        raise
+                    for k in set(e1) | set(e2):
+                        a, b = e1.get(k, _Poison("unbound on one arm")), e2.get(k, _Poison("unbound on one arm"))
+                        same = a is b or (isinstance(a, self.sp.Basic) and isinstance(b, self.sp.Basic) and a == b)
+                        env[k] = a if same else _Poison("depends on a test that needs the slice bounds")
+                    return None
                 raise
             return self.block(st.body if c else st.orelse, env)
         raise _Und("statement %s outside the fragment" % type(st).__name__)
@@ -1079,10 +1100,11 @@ class _PyCount(object):
             shp = c.args[0] if c.args else kwarg(c, "shape")
             if shp is None:
                 raise _Und("buffer without a shape")
-            v = self.expr(shp, env)
+            v = self.safe(shp, env)          # a length that is not known (yet) still makes a fresh buffer
             if isinstance(v, tuple) and len(v) == 1:
                 v = v[0]
-            return _Buf(v)
+            dt = kwarg(c, "dtype") if kwarg(c, "dtype") is not None else (c.args[1] if len(c.args) > 1 and kwarg(c, "shape") is None else None)
+            return _Buf(v, self.safe(dt, env) if dt is not None else None)
         if recv is not None and isinstance(c.func, ast.Attribute):
             try:
                 b = self.expr(c.func.value, env)
@@ -1135,10 +1157,9 @@ def _find_slice_reader_caller(repo):
     return found
 
 
-def _sym_count_py(repo):
-    """(True, text) / (False, text) / raises _Und: the buffer handed to <robj>.read_binary_slice(buf, start, stop, step) has
-    ceil((stop-start)/step) rows for every normalised slice"""
-    import sympy as sp
+def _slice_reader_discovery(repo):
+    """(function, call, values) of the one call <robj>.read_binary_slice(buffer, start, stop, step): the values its four arguments have
+    when the function that makes the call is entered with unknown parameters (symbols named after the parameters and their attributes)"""
     sites = _find_slice_reader_caller(repo)
     if len(sites) != 1:
         raise _Und("%d call sites of the C++ slice reader" % len(sites))
@@ -1150,9 +1171,16 @@ def _sym_count_py(repo):
         ev.run(fi, [], {})
         raise _Und("the call of the C++ slice reader is not reached on the straight path")
     except _CountStop as s:
-        a0 = s.args_
+        return fi, call, s.args_
     except _CountRaise:
         raise _Und("the path to the C++ slice reader raises")
+
+
+def _sym_count_py(repo):
+    """(True, text) / (False, text) / raises _Und: the buffer handed to <robj>.read_binary_slice(buf, start, stop, step) has
+    ceil((stop-start)/step) rows for every normalised slice"""
+    import sympy as sp
+    fi, call, a0 = _slice_reader_discovery(repo)
     st, sp_, se = a0[1], a0[2], a0[3]
     if isinstance(st, _Poison) or isinstance(sp_, _Poison) or isinstance(se, _Poison):
         raise _Und("start/stop/step handed to the C++ reader are not plain values")
@@ -1427,6 +1455,45 @@ def _r02_1_structural(chk, repo, F):
         seen.add(fi.qualname)
         chk.analysed_unit(fi.qualname)
         _check_slice_normaliser(chk, repo, fi)
+
+
+def _r02_1f_semantic(chk, repo, F, count_followed):
+    """what the C++ slice reader receives, read off the values its arguments have when the calling function is evaluated on unknown
+    parameters (the same evaluation R02.1e uses): the buffer is a fresh array of the file dtype -- its length is R02.1e's business when
+    that rule followed the buffer's shape --, and the three numbers are <slice parameter>.start, .stop, .step in this order"""
+    import sympy as sp
+    try:
+        if not count_followed:
+            raise _Und("the row count was not followed to the buffer")
+        fi, call, a0 = _slice_reader_discovery(repo)
+    except AnalysisError:
+        raise
+    except Exception:           # outside the fragment: the reviewed shape of the code decides (template form)
+        _r02_1f_structural(chk, F)
+        return
+    chk.analysed_unit(fi.qualname)
+    buf = a0[0]
+    ok, found = None, "not recognised"
+    if isinstance(buf, _Buf):
+        dt = buf.dtype
+        if isinstance(dt, sp.Symbol) and dt.name == "self.dtype":
+            ok, found = True, "a fresh array with dtype=self.dtype"
+        elif dt is None or isinstance(dt, str):
+            ok, found = False, "a fresh array %s" % ("without a dtype (float64)" if dt is None else "of dtype %r" % dt)
+        else:
+            found = "a fresh array whose dtype is not recognised"
+    chk.ob("R02.1f", "sem::" + fi.qualname + "::buffer-has-file-dtype", ok, fi.where(call),
+           "the buffer handed to the C++ slice reader is a fresh array of the file dtype, one element per row of the slice (found: %s)" % found)
+    ps = [p for p in fi.params[1:] if not p.startswith("*")]
+    names = [x.name if isinstance(x, sp.Symbol) else None for x in a0[1:4]]
+    if any(names == [p + ".start", p + ".stop", p + ".step"] for p in ps):
+        ok = True
+    elif all(names) and all(n.rsplit(".", 1)[0] in ps and n.rsplit(".", 1)[-1] in ("start", "stop", "step") for n in names):
+        ok = False              # parts of the slice, in the wrong places
+    else:
+        ok = None
+    chk.ob("R02.1f", "sem::" + fi.qualname + "::start-stop-step-roles", ok, fi.where(call),
+           "read_binary_slice receives (buffer, start, stop, step) of the slice in that order (found: %s)" % [str(x) if not isinstance(x, _Poison) else "?" for x in a0[1:4]])
 
 
 def _r02_1f_structural(chk, F):
@@ -2341,8 +2408,8 @@ def _every_name_looked_up(repo, gc, tables):
         elif isinstance(it, ast.Call) and norm(it.func) == "enumerate" and len(it.args) == 1 and not it.keywords and isinstance(target, ast.Tuple) \
                 and len(target.elts) == 2 and request(it.args[0]):
             return norm(target.elts[0]), norm(target.elts[1])
-        elif isinstance(target, ast.Name) and not isinstance(it, ast.Call) and request(it):
-            return None, target.id
+        elif isinstance(target, ast.Name) and _is_request(gc, it):
+            return None, target.id              # the request itself, or an order- and element-keeping conversion of it (atleast_1d, list, ...)
         return None, None
 
     for x in walk_no_nested(gc.node):
@@ -2401,6 +2468,74 @@ def _sorted_downstream(repo, gc):
                        for a in args for y in ast.walk(a)):
                     return f.name
     return None
+
+
+_DESCR = ("self.dtype.descr", "tuple(self.dtype.descr)", "list(self.dtype.descr)")
+
+
+def _file_descr_sources(repo, cls="Recfile"):
+    """texts of expressions that denote the descr list of the open file's dtype: self.dtype.descr (also as tuple / list), and calls
+    `self.G()` of a getter of the class that returns it from a per-object cache.  A cache is an attribute self.X that the class only
+    ever assigns None or a copy of self.dtype.descr, that the getter fills under `if self.X is None` immediately before returning it,
+    and that cannot go stale: every method that sets self.dtype to a dtype either assigns self.X itself or first calls a method of
+    the class that resets self.X to None, and does not otherwise touch the cache"""
+    meths = {q: f for q, f in repo.funcs.items() if q.startswith(U + cls + ".") and f.cls == cls}
+    fills, resets, other, sets_dtype = {}, {}, set(), {}
+    for q, f in meths.items():
+        for x in walk_no_nested(f.node):
+            if not isinstance(x, (ast.Assign, ast.AugAssign, ast.AnnAssign, ast.Delete)):
+                continue
+            tgts = x.targets if isinstance(x, (ast.Assign, ast.Delete)) else [x.target]
+            for t in tgts:
+                for tt in rules._flat_targets(t):
+                    base = tt
+                    while isinstance(base, ast.Subscript):
+                        base = base.value
+                    d = dotted_name(base) or ""
+                    if not d.startswith("self.") or d.count(".") != 1:
+                        continue
+                    val = x.value if isinstance(x, ast.Assign) and tt is t and len(tgts) == 1 else None
+                    if d == "self.dtype":
+                        if not (val is not None and isinstance(val, ast.Constant) and val.value is None):
+                            sets_dtype.setdefault(q, []).append(x)
+                    elif val is not None and rules.xnorm(val, f.node) in _DESCR:
+                        fills.setdefault(d, set()).add(q)
+                    elif val is not None and isinstance(val, ast.Constant) and val.value is None:
+                        resets.setdefault(d, set()).add(q)
+                    else:
+                        other.add(d)
+    out = set(_DESCR)
+    for d in fills:
+        if d in other:
+            continue
+        getters = set()
+        for q in fills[d]:
+            f = meths[q]
+            body = [b for b in f.node.body if not (isinstance(b, ast.Expr) and isinstance(b.value, ast.Constant))]
+            if len(f.params) == 1 and len(body) == 2 and isinstance(body[0], ast.If) and not body[0].orelse and len(body[0].body) == 1 \
+                    and _canon(body[0].test, True) == ("is", d, "None") and isinstance(body[0].body[0], ast.Assign) \
+                    and norm(body[0].body[0].targets[0]) == d and isinstance(body[1], ast.Return) and body[1].value is not None \
+                    and norm(body[1].value) == d:
+                getters.add(f.name)
+        if len(getters) != len(fills[d]):
+            continue            # the cache is filled somewhere else than in its getter
+        fresh = True
+        for q, assigns in sets_dtype.items():
+            f = meths[q]
+            if q in fills[d] or q in resets.get(d, ()):
+                continue
+            cfg = cfg_of(f)
+            view = cfg.view()
+            resetters = [n for n in cfg.nodes for c in rules.stmts_calls(n)
+                         if (dotted_name(c.func) or "").startswith("self.") and (U + cls + "." + call_name(c)) in resets.get(d, ())]
+            touches = any((isinstance(y, ast.Attribute) and norm(y) == d) or
+                          (isinstance(y, ast.Call) and (dotted_name(y.func) or "") in {"self." + g for g in getters}) for y in ast.walk(f.node))
+            nodes = [rules.node_of_stmt(cfg, a) for a in assigns]
+            if touches or not resetters or any(n is None or not any(view.dominates(r, n) for r in resetters) for n in nodes):
+                fresh = False
+        if fresh:
+            out |= {"self.%s()" % g for g in getters}
+    return out
 
 
 def _r02_3_structural(chk, repo, F):
@@ -2466,14 +2601,21 @@ def _r02_3_structural(chk, repo, F):
     # _read_columns: output dtype is built from the file descr at the (sorted) column numbers, in that order
     rcols = F["_read_columns"]
     ok = False
+    descr = _file_descr_sources(repo, rcols.cls or "Recfile")
+
+    def entry_of(e, idx):
+        """e is <the descr of the file's dtype>[idx]"""
+        e = rules.expand(e, rcols.node)
+        return isinstance(e, ast.Subscript) and norm(e.slice) == idx and norm(e.value) in descr
+
     for x in walk_no_nested(rcols.node):
         if isinstance(x, ast.For) and norm(x.iter) == "colnums":
             for b in x.body:
                 if isinstance(b, ast.Expr) and isinstance(b.value, ast.Call) and call_name(b.value) == "append" and b.value.args \
-                        and rules.xnorm(b.value.args[0], rcols.node) == "self.dtype.descr[%s]" % norm(x.target):
+                        and entry_of(b.value.args[0], norm(x.target)):
                     ok = True
         if isinstance(x, ast.ListComp) and len(x.generators) == 1 and not x.generators[0].ifs and norm(x.generators[0].iter) == "colnums" \
-                and rules.xnorm(x.elt, rcols.node) == "self.dtype.descr[%s]" % norm(x.generators[0].target):
+                and entry_of(x.elt, norm(x.generators[0].target)):
             ok = True
     chk.ob("R02.3c", rcols.qualname + "::subset-dtype-from-file-descr", ok, rcols.where(),
            "the dtype of a column subset is the file descr entries at the sorted column numbers, appended in that order")
@@ -2627,11 +2769,12 @@ def r02_5(chk, repo, F, cfun, S):
     f2 = _ev(chk, S, "sfile", ["getitem"], "R02.5b", "eval::esutil.sfile.SFile.__getitem__::delegates", repo.func("esutil.sfile.SFile.__getitem__").where(),
              "SFile[...] is Recfile[...]")
     if not (f1 and f2):
-        _r02_5_forward_structural(chk, repo, [
-            ("esutil.sfile.SFile._do_read", "read", {"rows": "rows", "columns": "columns"}),
-            ("esutil.sfile.SFile.read", "_do_read", {"rows": "rows", "fields": "fields", "columns": "columns"})])
+        handles = _recfile_handles(repo, "esutil.sfile", "SFile")
+        _r02_5_sfile_forward(chk, repo, sr, handles)
         g = repo.func("esutil.sfile.SFile.__getitem__")
-        ok = any(isinstance(x, ast.Return) and x.value is not None and norm(x.value) == "self._robj[arg]" for x in ast.walk(g.node))
+        p = g.params[1] if len(g.params) > 1 else "arg"
+        ok = any(isinstance(x, ast.Return) and isinstance(x.value, ast.Subscript) and rules.xnorm(x.value.value, g.node) in (handles or ("self._robj",))
+                 and rules.xnorm(x.value.slice, g.node) == p for x in walk_no_nested(g.node))
         chk.ob("R02.5b", g.qualname + "::delegates", ok, g.where(), "SFile[...] is Recfile[...]")
     # Recfile.read: which reader, with which arguments, and what is handed back
     g1 = _ev(chk, S, "read/dispatch", ["roles", "unique", "colnums", "count", "dtype"], "R02.5b", "eval::" + rd.qualname + "->reader::roles", rd.where(),
@@ -2690,6 +2833,188 @@ def _r02_5_forward_structural(chk, repo, fw):
                     bad.append("%s=%s (want %s)" % (role, got, want))
             chk.ob("R02.5b", "%s->%s::roles" % (q, callee), not bad, fi.where(c),
                    "delegation %s -> %s keeps argument roles%s" % (fi.name, callee, "" if not bad else ": " + "; ".join(bad)))
+
+
+# ---------------------------------------------------------------------------
+# SFile.read -> Recfile.read: which request reaches the recfile object, followed by reaching definitions from the parameters of the
+# public method, through private helpers of the class however many there are (none: the delegation is written in read itself).
+# ---------------------------------------------------------------------------
+def _recfile_handles(repo, modname, cls):
+    """texts `self.<attr>` of the attributes of the class that are bound to a Recfile object somewhere in the class"""
+    out = set()
+    m = repo.modules.get(modname)
+    if m is None:
+        return ()
+    for q, fi in repo.funcs.items():
+        if not q.startswith("%s.%s." % (modname, cls)):
+            continue
+        for x in walk_no_nested(fi.node):
+            if isinstance(x, ast.Assign) and isinstance(x.value, ast.Call):
+                d = dotted_name(x.value.func)
+                full = repo.resolve_name(m, d) if d else ""
+                if full and full.startswith("esutil.recfile") and full.rsplit(".", 1)[-1] in ("Recfile", "Open"):
+                    for t in x.targets:
+                        if isinstance(t, ast.Attribute) and isinstance(t.value, ast.Name) and t.value.id == "self":
+                            out.add(norm(t))
+    return tuple(sorted(out))
+
+
+class _Roles(object):
+    """what an expression of one function stands for, in terms of the request the public entry point received: 'rows', 'fields',
+    'columns' (one synonym on its own), 'request' (the merged column request: whichever synonym carried it), 'none' (the constant
+    None), ('const', v), or None (not known)"""
+
+    def __init__(self, fi, roles):
+        self.fi = fi
+        self.roles = roles
+        self.cfg = cfg_of(fi)
+        self.view = self.cfg.view()
+        self.IN = self.view.reaching_defs()[0]
+        self.merges = {m.id: (t, o, unc) for m, t, o, unc in _synonym_merges(self.cfg, self.view)}
+
+    def of(self, n, e, depth=0):
+        if depth > 8 or e is None:
+            return None
+        if isinstance(e, ast.Constant):
+            return "none" if e.value is None else ("const", e.value)
+        if isinstance(e, (ast.IfExp, ast.BoolOp)):
+            names = sorted({x.id for x in ast.walk(e) if isinstance(x, ast.Name)})
+            if len(names) == 2 and (_is_merge_expr(e, names[0], names[1]) or _is_merge_expr(e, names[1], names[0])):
+                rs = {self.of(n, ast.Name(id=v, ctx=ast.Load()), depth + 1) for v in names}
+                if rs == {"fields", "columns"}:
+                    return "request"
+            return None
+        if not isinstance(e, ast.Name):
+            return None
+        v = e.id
+        entry = self.cfg.entry.id
+        defs = set(self.IN.get(n.id, {}).get(v) or ())
+        if not defs:
+            return None
+        if defs == {entry}:
+            return self.roles.get(v)
+        rest = defs - {entry}
+        if all(d in self.merges for d in rest):
+            # `if v is None: v = other` (the parameter's own value survives exactly when it carries the request) / `v = <merge expression>`
+            for d in rest:
+                t, o, unc = self.merges[d]
+                dn = self.cfg.node(d)
+                if t != v:
+                    return None
+                rs = {self.of(dn, ast.Name(id=t, ctx=ast.Load()), depth + 1), self.of(dn, ast.Name(id=o, ctx=ast.Load()), depth + 1)}
+                if rs != {"fields", "columns"}:
+                    return None
+                if not unc and len(self.view.controlling_branches(dn)) != 1:
+                    return None
+                if unc and entry in defs:
+                    return None
+            if entry in defs and self.roles.get(v) not in ("fields", "columns"):
+                return None
+            return "request"
+        if len(defs) == 1:
+            dn = self.cfg.node(next(iter(defs)))
+            a = dn.ast
+            if dn.kind == "stmt" and isinstance(a, ast.Assign) and len(a.targets) == 1 and isinstance(a.targets[0], ast.Name) and a.targets[0].id == v:
+                return self.of(dn, a.value, depth + 1)
+        return None
+
+
+def _value_is_returned(fi, n, call):
+    """the value of `call` (in CFG node n of fi) goes into what the function hands back: it is (part of) a returned expression, or of the
+    value bound to a name that a return statement mentions (possibly after being post-processed: that is R02.6d's subject)"""
+    a = n.ast
+    if isinstance(a, ast.Return):
+        return a.value is not None and any(x is call for x in ast.walk(a.value))
+    if isinstance(a, ast.Assign) and any(x is call for x in ast.walk(a.value)) and len(a.targets) == 1 and isinstance(a.targets[0], ast.Name):
+        v = a.targets[0].id
+        return any(isinstance(r, ast.Return) and r.value is not None and any(isinstance(x, ast.Name) and x.id == v for x in ast.walk(r.value))
+                   for r in walk_no_nested(fi.node))
+    return False
+
+
+def _bind_params(callee, call, skip_self=True):
+    """{parameter of callee: argument expression} for a call, or None when the call uses * / ** arguments"""
+    if any(isinstance(a, ast.Starred) for a in call.args) or any(k.arg is None for k in call.keywords):
+        return None
+    ps = [p for p in callee.params if not p.startswith("*")]
+    if skip_self and ps and ps[0] in ("self", "cls"):
+        ps = ps[1:]
+    out = {}
+    for p, a in zip(ps, call.args):
+        out[p] = a
+    if len(call.args) > len(ps):
+        return None
+    for k in call.keywords:
+        if k.arg in out:
+            return None
+        out[k.arg] = k.value
+    return out
+
+
+def _robj_read_sites(repo, fi, roles, handles, depth=0, seen=()):
+    """[(FuncInfo, _Roles, node, call, returned?)] for the calls <recfile handle>.read(...) reached from fi, also through methods of
+    the same class called on self (their parameters take the roles of the arguments)"""
+    R = _Roles(fi, roles)
+    out = []
+    prefix = fi.qualname.rsplit(".", 1)[0] + "."
+    for n in R.view.nodes():
+        for c in rules.stmts_calls(n):
+            if not isinstance(c.func, ast.Attribute):
+                continue
+            recv = rules.xnorm(c.func.value, fi.node)
+            if c.func.attr == "read" and recv in handles:
+                out.append((fi, R, n, c, _value_is_returned(fi, n, c)))
+            elif recv == "self" and repo.has(prefix + c.func.attr) and depth < 3 and prefix + c.func.attr not in seen:
+                callee = repo.func(prefix + c.func.attr)
+                b = _bind_params(callee, c)
+                if b is None:
+                    continue
+                sub = {}
+                for p in callee.params:
+                    if p in b:
+                        sub[p] = R.of(n, b[p])
+                    elif p in callee.defaults:
+                        sub[p] = R.of(n, callee.defaults[p]) if isinstance(callee.defaults[p], ast.Constant) else None
+                ret = _value_is_returned(fi, n, c)
+                for s in _robj_read_sites(repo, callee, sub, handles, depth + 1, seen + (fi.qualname,)):
+                    out.append(s[:4] + (s[4] and ret,))
+    return out
+
+
+def _r02_5_sfile_forward(chk, repo, sr, handles):
+    key = "sem::" + sr.qualname + "->Recfile.read::roles"
+    msg = "SFile.read hands its rows and its column request (from either synonym) to Recfile.read and returns (the post-processed) result"
+    if not handles:
+        chk.ob("R02.5b", key, None, sr.where(), msg + ": the attribute holding the Recfile object was not found")
+        return
+    roles = {p: p for p in ("rows", "fields", "columns") if p in sr.params}
+    sites = _robj_read_sites(repo, sr, roles, handles)
+    if not sites:
+        chk.ob("R02.5b", key, None, sr.where(), msg + ": no call of %s.read is reached from %s" % ("/".join(handles), sr.name))
+        return
+    target = repo.funcs.get(U + "Recfile.read")
+    for fi, R, n, c, returned in sites:
+        chk.analysed_unit(fi.qualname)
+        b = _bind_params(target, c) if target is not None else None
+        if b is None:
+            chk.ob("R02.5b", key, None, fi.where(c), msg + ": the arguments of `%s` are not explicit" % norm(c)[:80])
+            continue
+        r_rows = R.of(n, b["rows"]) if "rows" in b else "none"
+        r_f = R.of(n, b["fields"]) if "fields" in b else "none"
+        r_c = R.of(n, b["columns"]) if "columns" in b else "none"
+        r_split = R.of(n, b["split"]) if "split" in b else ("const", False)
+        found = "rows=%s, fields=%s, columns=%s" % (r_rows, r_f, r_c)
+        cols = (r_f, r_c)
+        if r_rows == "rows" and (cols in (("none", "request"), ("request", "none")) or set(cols) == {"fields", "columns"}):
+            ok = True if (returned and r_split == ("const", False)) else None
+            why = "" if ok else " (what happens to the value read, or split=, is not recognised)"
+        elif r_rows in ("none", "fields", "columns", "request") or (r_rows == "rows" and None not in cols and "rows" not in cols) \
+                or "rows" in cols:
+            # recognised, and not the request the caller made: the rows are dropped / replaced, or one synonym is ignored
+            ok, why = False, ""
+        else:
+            ok, why = None, " (an argument is not recognised as a parameter of %s)" % sr.name
+        chk.ob("R02.5b", key, ok, fi.where(c), "%s: `%s` in %s receives %s%s" % (msg, norm(c)[:80], fi.name, found, why))
 
 
 def _r02_5_brackets_structural(chk, repo, F):
@@ -2903,14 +3228,25 @@ def _r02_5_read_structural(chk, repo, F):
 
 # ---------------------------------------------------------------------------
 def r02_6(chk, repo, S):
-    copies = [q for q in ("esutil.sfile.split_fields", "esutil.recfile.Util.split_fields", "esutil.numpy_util.split_fields") if repo.has(q)]
-    chk.ob("R02.6a", "split_fields::copies-found", len(copies) == 3, "esutil", "three copies of split_fields: %s" % copies)
+    # the name `split_fields` as each of the three modules offers / uses it: a definition of its own, or an import of another
+    # module's definition (followed through the import table).  What matters is that the function the name stands for meets the
+    # specification, not how many textual copies there are.
+    offered = {}
+    for mname in ("esutil.sfile", "esutil.recfile.Util", "esutil.numpy_util"):
+        m = repo.modules.get(mname)
+        q = repo.resolve_name(m, "split_fields") if m is not None else None
+        offered[mname] = q if q is not None and repo.has(q) else None
+    copies = sorted({q for q in offered.values() if q is not None})
+    missing = sorted(m for m, q in offered.items() if q is None)
+    chk.ob("R02.6a", "split_fields::copies-found", None if missing else True, "esutil",
+           "split_fields as offered by sfile, recfile.Util and numpy_util resolves to: %s%s"
+           % (offered, "" if not missing else " (not resolved to a function of the package in: %s)" % missing))
     for q in copies:
         fi = repo.func(q)
         chk.analysed_unit(q)
         check_split_fields(chk, fi, "R02.6a", repo=repo, sims=S)
-    # total helpers
-    for q in ("esutil.sfile.reduce_array", "esutil.sfile.split_fields", "esutil.recfile.Util.split_fields"):
+    # total helpers (split_fields: the implementations the two readers' modules resolve the name to)
+    for q in ["esutil.sfile.reduce_array"] + sorted({offered[m] for m in ("esutil.sfile", "esutil.recfile.Util") if offered[m]}):
         fi = repo.func(q)
         chk.analysed_unit(q)
         cfg = cfg_of(fi)
@@ -2934,6 +3270,27 @@ def r02_6(chk, repo, S):
         _r02_6d_structural(chk, sr)
 
 
+def _only_element_of(fi, cfg, k):
+    """(text of X after forward substitution, CFG node of the unpacking or None) when the subscript `k` denotes the first element of X:
+    X[0] / next(iter(X)), or a name bound exactly once, by the one-element unpacking `(k,) = X` / `[k] = X`; else None"""
+    if isinstance(k, ast.Subscript) and norm(k.slice) == "0":
+        return norm(k.value), None
+    if isinstance(k, ast.Call) and call_name(k) == "next" and len(k.args) == 1 and isinstance(k.args[0], ast.Call) \
+            and call_name(k.args[0]) == "iter" and len(k.args[0].args) == 1:
+        return norm(k.args[0].args[0]), None
+    if isinstance(k, ast.Name):
+        binds = []
+        for n in cfg.nodes:
+            d, _ = cfg.defs_uses(n)
+            if k.id in d:
+                binds.append(n)
+        if len(binds) == 1 and binds[0].kind == "stmt" and isinstance(binds[0].ast, ast.Assign) and len(binds[0].ast.targets) == 1:
+            t = binds[0].ast.targets[0]
+            if isinstance(t, (ast.Tuple, ast.List)) and len(t.elts) == 1 and isinstance(t.elts[0], ast.Name) and k.id not in fi.params:
+                return rules.xnorm(binds[0].ast.value, fi.node), binds[0]
+    return None
+
+
 def _r02_6c_structural(chk, ra):
     """reduce_array: every return is the parameter itself, or data[<names>[0]] under the fact len(<names>) == 1"""
     cfg = cfg_of(ra)
@@ -2949,14 +3306,19 @@ def _r02_6c_structural(chk, ra):
         if isinstance(e, ast.Name) and e.id == p:
             kinds.append("input")
             continue
-        if isinstance(e, ast.Subscript) and norm(e.value) == p and isinstance(e.slice, ast.Subscript) and norm(e.slice.slice) == "0":
-            names = norm(e.slice.value)
+        sel = _only_element_of(ra, cfg, e.slice) if isinstance(e, ast.Subscript) and norm(e.value) == p else None
+        if sel is not None:
+            names, at = sel
             if "names" not in names and "fields" not in names and "descr" not in names:
                 verdict = None if verdict else verdict
                 msgs.append("unrecognised field selector %s" % names)
                 continue
             kinds.append("field")
             facts = _node_facts(view, r, ra.node)
+            if at is not None:
+                # the selector is bound by a one-element unpacking, which raises unless there is exactly one name: the single-field
+                # test has to hold there as well (every other input is returned unchanged, not rejected)
+                facts = [f for f in facts if f in _node_facts(view, at, ra.node)]
             lens = {"len(%s)" % names, "len(%s.dtype)" % p, "len(%s.dtype.names)" % p, "len(%s.dtype.fields)" % p, "len(%s.dtype.descr)" % p}
             single = any((f[0] == "==" and ((f[1] in lens and f[2] == "1") or (f[2] in lens and f[1] == "1"))) for f in facts) or \
                 (any(f[0] == "<" and f[1] in lens and f[2] == "2" for f in facts) and any(f[0] in ("truthy",) and f[1] == names for f in facts))
@@ -3409,19 +3771,51 @@ class _SliceCursor(object):
             inner = dict(pos=P, xfer=[], conds=[], env=dict(st["env"]))
             inner["env"][ivar] = i
             ends = self.block([body, inc], [inner], L)
-            if len(ends) != 1:
-                raise _CurUnsup("the loop body branches")
-            e = ends[0]
-            d = sp.expand(e["pos"] - P)
-            if d.has(P) or d.has(i) or any(str(sy).find("@") >= 0 for sy in d.free_symbols):
-                raise _CurUnsup("the distance moved per round, %s, depends on the round" % d)
+            e0 = None
+            if len(ends) == 1:
+                e = ends[0]
+            else:
+                # the body branches on the loop counter only: a first round that differs from the later ones (`if (i > 0) skip(...)`)
+                e0, e = self._peel(ends, i, lo_e)
+                if e0 is None:
+                    raise _CurUnsup("the loop body branches")
+
+            def round_of(e_):
+                d_ = sp.expand(e_["pos"] - P)
+                if d_.has(P) or d_.has(i) or any(str(sy).find("@") >= 0 for sy in d_.free_symbols):
+                    raise _CurUnsup("the distance moved per round, %s, depends on the round" % d_)
+                offs = []
+                for xf in e_["xfer"]:
+                    off = sp.expand(xf["start"] - P)
+                    if off.has(P) or off.has(i) or xf["n"] != 1:
+                        raise _CurUnsup("read inside the loop at %s, %s rows" % (xf["start"], xf["n"]))
+                    offs.append(off)
+                return d_, offs
+
+            d, offs = round_of(e)
             n = sp.expand(hi_e - lo_e)
-            for xf in e["xfer"]:
-                off = sp.expand(xf["start"] - P)
-                if off.has(P) or off.has(i) or xf["n"] != 1:
-                    raise _CurUnsup("read inside the loop at %s, %s rows" % (xf["start"], xf["n"]))
-                st["xfer"].append(dict(start=st["pos"] + off, n=n, stride=d, size=xf["size"], line=xf["line"]))
-            st["pos"] = st["pos"] + n * d
+            if e0 is None:
+                for xf, off in zip(e["xfer"], offs):
+                    st["xfer"].append(dict(start=st["pos"] + off, n=n, stride=d, size=xf["size"], line=xf["line"]))
+                st["pos"] = st["pos"] + n * d
+            else:
+                # round 0 moves d0 and reads at off0; round k >= 1 starts at pos + d0 + (k-1)*d and reads at off: the reads form ONE
+                # progression from pos + off0 with stride d exactly when the second read is d after the first
+                d0, offs0 = round_of(e0)
+                if len(offs0) != len(offs) or [str(x["size"]) for x in e0["xfer"]] != [str(x["size"]) for x in e["xfer"]]:
+                    raise _CurUnsup("the first round does not read what the later rounds read")
+                for xf, off0, off in zip(e["xfer"], offs0, offs):
+                    if sp.expand(d0 + off - off0 - d) != 0:
+                        raise _CurUnsup("reads of the first and of the later rounds are not evenly spaced (%s, then %s)" % (sp.expand(d0 + off - off0), d))
+                    st["xfer"].append(dict(start=st["pos"] + off0, n=n, stride=d, size=xf["size"], line=xf["line"]))
+                if sp.expand(d0 - d) == 0:
+                    st["pos"] = st["pos"] + n * d
+                else:
+                    st["pos"] = sp.Symbol("pos@after%s" % x.get("line", ""))    # pos + d0 + (n-1)*d for n >= 1, pos for n = 0: not followed
+                for nm in set(e0["env"]) | set(e["env"]):
+                    if e0["env"].get(nm) != e["env"].get(nm) and nm != ivar:
+                        e["env"] = dict(e["env"])
+                        e["env"][nm] = sp.Symbol("%s@round" % nm)
             # what the body assigned is not known after the loop
             for nm in set(e["env"]) | set(st["env"]):
                 if e["env"].get(nm) != st["env"].get(nm) and nm != ivar:
@@ -3497,6 +3891,41 @@ class _SliceCursor(object):
         if k in ("DoStmt", "SwitchStmt", "GotoStmt", "LabelStmt", "CXXTryStmt", "CXXForRangeStmt", "BreakStmt", "ContinueStmt"):
             raise _CurUnsup("%s in the slice reader" % k)
         return self.simple(x, st, L)
+
+    def _peel(self, ends, i, lo):
+        """(state of the first round, state of every later round) when each path through the loop body is selected by comparisons of
+        the loop counter i with constants that come out one way for i = lo and one way for every i > lo; else (None, None)"""
+        sp = self.sp
+        k = sp.Symbol("_k", integer=True, nonnegative=True)
+
+        def holds(c, truth, val):
+            if c is None or not getattr(c, "is_Relational", False) or (c.free_symbols - {i}):
+                return None
+            try:
+                r = sp.simplify(c.subs(i, val))
+            except Exception:
+                return None
+            if r == sp.true:
+                return truth
+            if r == sp.false:
+                return not truth
+            return None
+
+        if not getattr(lo, "is_number", False):
+            return None, None
+        pick = []
+        for val in (lo, lo + 1 + k):
+            sel = []
+            for e in ends:
+                hs = [holds(c, tr, val) for c, tr, _ in e["conds"]]
+                if not hs or any(h is None for h in hs):
+                    return None, None
+                if all(hs):
+                    sel.append(e)
+            if len(sel) != 1:
+                return None, None
+            pick.append(sel[0])
+        return pick[0], pick[1]
 
     # verdicts ------------------------------------------------------------------------------------------------------------------
     def verdicts(self):
